@@ -79,7 +79,7 @@ CHECKS = {
              'Retry loops are unwound 4 times without unwinding assertions (stated bound).',
         technique='bounded-context-switch sequentialisation with pre-emption at atomic operations (ir2c --thread --cs-atomic-only) + CBMC', design_ref='DESIGN.md §3 C07, §7.1'),
     'C09': dict(
-        text='channel<int> (thread/go.h, real unbuffered_send/recv, buffered paths over the real lock-free ring) with mutex / cv / semaphore as contracts: scenario 1S(2 values)+1R unbuffered (quick), 2S+1R, 2 try_send+2R and 2S+2R (thorough; 10-20 min each with the symbolic clock): every value whose send returned true is received exactly once, nothing else is received, per-sender order, failures only by timeout/close, and in a stuck end state a blocked sender and a blocked '
+        text='channel<int> (thread/go.h, real unbuffered_send/recv, buffered paths over the real lock-free ring) with mutex / cv / semaphore as contracts: scenario 1S(2 values)+1R unbuffered (quick), 2S+1R and 2 try_send+2R (thorough; 3-20 min each with the symbolic clock; 2S+2R gave no verdict in 40 min and is not registered): every value whose send returned true is received exactly once, nothing else is received, per-sender order, failures only by timeout/close, and in a stuck end state a blocked sender and a blocked '
              'receiver never coexist (buffered: no receiver blocked with an item queued, no sender blocked with a free slot).',
         note='Found and fixed (13935a3): with one receiver and two senders unbuffered_send overwrote a value still in the hand-off slot (send(1) returned true, 1 was never delivered) - confirmed on the live runtime; (b115053): a sender whose deadline had passed retracted another sender\'s value from the slot.  The buffered paths (real lock-free ring) do not fit and are not decided.  '
              'Cooperative scheduling with symbolic timeouts; select() and multi-vCPU pre-emption inside go.h are outside.',
